@@ -49,7 +49,7 @@ STRUCT = ["sni_no_hostname", "psk_empty", "dup_ext", "drop_ext",
           "cert_bomb", "empty_suites", "alert_weird", "heartbeat_bad",
           "empty_inner13"]
 RECORD = ["oversize_record", "empty_record", "unknown_type", "sslv2_garbage",
-          "hs_len_max_eof"]
+          "hs_len_max_eof", "sslv2_hello"]
 PROBES = mutate.GENERIC + STRUCT + RECORD + [
     "victim_client", "victim_server", "post_handshake", "memory_metered",
     "clean_alert", "tls13", "legacy", "close_socket_false"]
@@ -373,6 +373,19 @@ def run(job, streams=None):
             t.update(kind="replace_raw",
                      raw="802e0100020015000000100100800700c0030080060040"
                          "0200800400800000040000050000" + "ab" * 16)
+        elif wire_fault == "sslv2_hello":
+            # a well-formed SSLv2-compatible ClientHello (RFC 5246 E.2) in
+            # place of the peer's first record; boundary challenge lengths
+            chal = [16, 32, 33, 15, 0, 48, 255, 31][ch.draw(8, "mu.chal")]
+            specs = bytes.fromhex("00002f" "000035" "00000a" "0000ff"
+                                  "00c013" "00009c")
+            body = bytes([1, 3, [3, 1][ch.draw(2, "mu.v2ver")]]) + \
+                len(specs).to_bytes(2, "big") + b"\x00\x00" + \
+                chal.to_bytes(2, "big") + specs + \
+                bytes((i * 7 + 1) & 0xff for i in range(chal))
+            t.update(kind="replace_raw", idx=0,
+                     raw=(bytes([0x80 | (len(body) >> 8), len(body) & 0xff])
+                          + body).hex())
         elif wire_fault == "hs_len_max_eof":
             t.update(kind="replace_raw", raw="16030300" + "05" + "01ffffff00",
                      then_eof=True)
